@@ -51,11 +51,11 @@ theorem flatMap_congr' {α β : Type} (l : List α) (f g : α → List β) (h : 
 @[simp] theorem takeCall_busName (c : Call) (s : St) : (takeCall c s).busName = s.busName := by
   unfold takeCall; cases c.timed <;> simp
 @[simp] theorem completeCall_phase (c : Call) (ok : Bool) (s : St) : (completeCall .repaired c ok s).phase = s.phase := by
-  unfold completeCall; cases c.kind <;> cases ok <;> simp [St.emit, makeProxy, makeProxyCbs]
+  unfold completeCall; cases c.cancelled <;> cases c.kind <;> cases ok <;> simp [St.emit, makeProxy, makeProxyCbs]
 @[simp] theorem completeCall_fired (c : Call) (ok : Bool) (s : St) : (completeCall .repaired c ok s).fired = s.fired := by
-  unfold completeCall; cases c.kind <;> cases ok <;> simp [St.emit, makeProxy, makeProxyCbs]
+  unfold completeCall; cases c.cancelled <;> cases c.kind <;> cases ok <;> simp [St.emit, makeProxy, makeProxyCbs]
 @[simp] theorem completeCall_busName (c : Call) (ok : Bool) (s : St) : (completeCall .repaired c ok s).busName = s.busName := by
-  unfold completeCall; cases c.kind <;> cases ok <;> simp [St.emit, makeProxy, makeProxyCbs]
+  unfold completeCall; cases c.cancelled <;> cases c.kind <;> cases ok <;> simp [St.emit, makeProxy, makeProxyCbs]
 
 /-- Proxies other than `p` are untouched by anything that runs on behalf of proxy `p`. -/
 theorem findProxy_modifyProxy_ne {p q : Nat} (f : Proxy → Proxy) (hf : ∀ x, (f x).id = x.id) (h : q ≠ p) :
@@ -211,9 +211,11 @@ theorem runConnCbs_pending_mono (cbs : List Cb) : ∀ (s : St) (c : Call), c ∈
 
 /-! ## Pass 2: the pending calls -/
 
-/-- What failing one entry of the table shows. -/
+/-- What failing one entry of the table shows: the cancellation of its timer if it has one, and the errback
+of its Deferred with the loss - unless the caller has cancelled that Deferred (then the errback is swallowed). -/
 def failFx (c : Call) : List Fx :=
-  (if c.timed then [Fx.timerCancelled c.serial] else []) ++ [Fx.callErr c.serial (errKindOf c.kind)]
+  (if c.timed then [Fx.timerCancelled c.serial] else []) ++
+    (if c.cancelled then [] else [Fx.callErr c.serial (errKindOf c.kind)])
 
 theorem failCall_frame (c : Call) (s : St) :
     (failCall .repaired c s).phase = s.phase ∧ (failCall .repaired c s).fired = s.fired ∧
@@ -221,15 +223,18 @@ theorem failCall_frame (c : Call) (s : St) :
     (failCall .repaired c s).log = s.log ++ failFx c ∧
     (failCall .repaired c s).timers = if c.timed then s.timers.filter (· ≠ c.serial) else s.timers := by
   refine ⟨?_, ?_, ?_, ?_, ?_, ?_⟩
-  · unfold failCall; cases c.timed <;> simp [St.emit]
-  · unfold failCall; cases c.timed <;> simp [St.emit]
-  · unfold failCall; cases c.timed <;> simp [St.emit]
+  · unfold failCall; cases c.timed <;> cases c.cancelled <;> simp [St.emit]
+  · unfold failCall; cases c.timed <;> cases c.cancelled <;> simp [St.emit]
+  · unfold failCall; cases c.timed <;> cases c.cancelled <;> simp [St.emit]
   · intro q x h
     unfold failCall
-    apply react_keepsAll_errback
-    cases c.timed <;> simpa [St.emit] using h
-  · unfold failCall failFx; cases c.timed <;> simp [St.emit]
-  · unfold failCall; cases c.timed <;> simp [St.emit]
+    cases c.cancelled
+    · simp only [Bool.false_eq_true, if_false]
+      apply react_keepsAll_errback
+      cases c.timed <;> simpa [St.emit] using h
+    · cases c.timed <;> simpa using h
+  · unfold failCall failFx; cases c.timed <;> cases c.cancelled <;> simp [St.emit]
+  · unfold failCall; cases c.timed <;> cases c.cancelled <;> simp [St.emit]
 
 theorem failCalls_frame (calls : List Call) : ∀ s : St,
     (failCalls .repaired calls s).phase = s.phase ∧ (failCalls .repaired calls s).fired = s.fired ∧
